@@ -220,7 +220,7 @@ Proof.
     assert (E' : nget (nset (d_regs d) (idgen_next (d_idgen d))
                             (mkReg (idgen_next (d_idgen d)) proc (opt_string opts "match") (opt_string opts "invoke")
                                    (if opt_bool opts "disclose_caller" then [s_id callee] else [])
-                                   (opt_bool opts "forward_timeout") 0 [s_id callee])) rid = Some rg').
+                                   (if opt_bool opts "forward_timeout" then [s_id callee] else []) 0 [s_id callee])) rid = Some rg').
     { destruct (mkind_of (opt_string opts "match")); exact E. }
     rewrite ngs in E'. destruct (N.eqb_spec rid (idgen_next (d_idgen d))) as [->|Hn]; [|eauto].
     inversion E'; subst rg'. cbn [reg_callees] in Hin. destruct Hin as [<-|[]]. right. split; [reflexivity|now left].
